@@ -6,6 +6,8 @@
  *   params: [0] drain_max  [1] mode: 0 = guarded (an op on the handle starts
  *           only while the harness-side flag "handle given up" is clear),
  *           1 = unguarded (ops are issued regardless; F-C04b exploration)
+ *           [2] model variant (1 = code with the F-C04a repair 4ff1f32, 0 = before it): used by
+ *           the model only, chosen by tools/vf/props/C04.py from the tree under test; ignored here
  *   ops:    1 join  2 tryjoin  3 detach  4 yield  5 finish(arg = result, 1..99)
  *           thread 0 performs only 4 and 5, the others only 1..4; anything
  *           else reports -1 and is skipped.
